@@ -70,3 +70,15 @@ Theorem C07_sync_append_reaches_the_file :
   = wal_file c (map snd (rs ++ [(true, r)])).
 Proof. exact sync_append_reaches_the_file. Qed.
 Print Assumptions C07_sync_append_reaches_the_file.
+
+(* the appends of every log file of a session, as the rotation rule of the appender groups them ([log_groups] - what the
+   correspondence feeds, file by file, to the model of writer program + write buffer to predict the write system calls),
+   are exactly the files of the appender model above *)
+Theorem C07_log_groups_are_the_files :
+  forall (c : codec), ctype c <= 3 ->
+  forall (max : N) (ops : list wop) (syncs : list bool),
+  Forall (wop_ok c) ops -> a_failed (run c max ops) = false ->
+  map (fun g => wal_file c (map snd g)) (log_groups c max ops syncs 8 [] [])
+  = map snd (app_files (run c max ops)).
+Proof. exact log_groups_are_the_files. Qed.
+Print Assumptions C07_log_groups_are_the_files.
